@@ -7,6 +7,7 @@ package main
 
 import (
 	"bytes"
+	stdio "io"
 	"fmt"
 	"sync"
 	"time"
@@ -19,6 +20,7 @@ type c18Pipe struct {
 	shape  string
 	size   int
 	rjobs  uint
+	listen bool
 	stream []byte
 	back   []byte
 	err    string
@@ -32,7 +34,28 @@ func (p *c18Pipe) run(perturbSeed uint64) {
 		return
 	}
 	p.stream = stream
-	res := decompressTimed(stream, p.cfg, p.rjobs, []int{50000}, 0, nil, 300*time.Second)
+	var res readResult
+	if p.listen {
+		// with a block listener and verbose events (BLOCK_INFO carries stream offsets): whatever the tasks report must be
+		// read under the hand-off protocol too
+		ch := make(chan readResult, 1)
+		go func() {
+			rd, err := newReader(stdio.NopCloser(bytes.NewReader(stream)), p.cfg, p.rjobs, map[string]any{"verbosity": uint(5)})
+			if err != nil {
+				ch <- readResult{err: err}
+				return
+			}
+			rd.AddListener(&evtListener{events: map[int][]int{}})
+			ch <- readAll(rd, []int{50000}, 0, 0)
+		}()
+		select {
+		case res = <-ch:
+		case <-time.After(300 * time.Second):
+			res = readResult{timeout: true}
+		}
+	} else {
+		res = decompressTimed(stream, p.cfg, p.rjobs, []int{50000}, 0, nil, 300*time.Second)
+	}
 	if res.err != nil || res.panic != nil || res.timeout {
 		p.err = fmt.Sprintf("decode: err=%v panic=%v timeout=%v", res.err, res.panic, res.timeout)
 		return
@@ -58,6 +81,8 @@ func runC18(c *Ctx, _ []string) {
 			{cfg: sCfg{"TEXT+UTF+PACK+MM+LZX", "HUFFMAN", 65536, 4, 32, 0, false}, shape: "b64", size: 250000, rjobs: 4},
 			{cfg: sCfg{"ROLZX", "RANGE", 65536, 2, 32, 0, false}, shape: "text", size: 150000, rjobs: 2},
 			// almost valid UTF-8 next to valid UTF-8 (a block rejected late by one codec instance must leave nothing behind for another one)
+			{cfg: sCfg{"NONE", "NONE", 4096, 4, 32, 0, false}, shape: "text", size: 120000, rjobs: 4, listen: true},
+			{cfg: sCfg{"LZ", "HUFFMAN", 16384, 3, 0, 0, false}, shape: "text", size: 300000, rjobs: 8, listen: true},
 			{cfg: sCfg{"UTF", "NONE", 65536, 2, 32, 0, false}, shape: "utf8bad", size: 200000, rjobs: 2},
 			{cfg: sCfg{"UTF", "HUFFMAN", 65536, 3, 32, 0, false}, shape: "utf8", size: 200000, rjobs: 3},
 			{cfg: sCfg{"TEXT+UTF", "NONE", 32768, 2, 0, 0, false}, shape: "utf8bad", size: 100000, rjobs: 1},
